@@ -60,6 +60,52 @@ def obligations(ctx):
         ob.fail("no path")
     ob.finish(E)
 
+    # ------------------------------------------------------------------ signers required by the inputs = vkeys + signers of EVERY script witness
+    import itertools
+    ob = Obligation(ctx, "c18_e2_input_signers_union", "1-2 script hashes x 1-2 inputs each, witness of each input native / Plutus / absent; signer sets arbitrary (pointwise)",
+                    ["<Ed25519KeyHashes as From<&TxInputsBuilder>>::from"], fallback_native="e2n_builder_battery")
+    agg = Engine(P)
+    layouts = [(1,), (2,), (1, 1), (2, 1), (2, 2)] if ctx.tier == "quick" else [(1,), (2,), (3,), (1, 1), (2, 1), (2, 2), (3, 2)]
+    for layout in layouts:
+        n = sum(layout)
+        for pat in itertools.product("NPA", repeat=n):
+            if ctx.tier == "quick" and n > 3 and pat.count("A") > 1:
+                continue
+            E = Engine(P, max_loop=n + 4)
+            KS.install(E)
+            m0 = z3.Bool("member_vkeys")
+            mem = [z3.Bool("member_item%d" % j) for j in range(n)]
+            has = [z3.Bool("declares_item%d" % j) for j in range(n)]
+            def sig_stub(E_, c, args, mem=mem, has=has):
+                w = VM.deref(E_, args[0])
+                j = int(w.path[len("item"):].split(".")[0])
+                i = E_.choose([has[j], z3.Not(has[j])], "signers declared")
+                return opt(KS.mk(mem[j])) if i == 0 else opt(None)
+            E.extra_intrinsics[r"NativeScriptSourceEnum::required_signers$"] = sig_stub
+            E.extra_intrinsics[r"PlutusWitness::get_required_signers$"] = sig_stub
+            def mk(layout=layout, pat=pat, E=E, m0=m0):
+                groups, j = [], 0
+                for h, cnt in enumerate(layout):
+                    inner = []
+                    for _ in range(cnt):
+                        k = pat[j]
+                        w = opt(VEnum("ScriptWitnessType", "NativeScriptWitness", [VLazy("item%d" % j, "NativeScriptSourceEnum")])) if k == "N" else \
+                            (opt(VEnum("ScriptWitnessType", "PlutusScriptWitness", [VLazy("item%d" % j, "PlutusWitness")])) if k == "P" else opt(None))
+                        inner.append(VStruct("()", [VLazy("txin%d" % j, "TransactionInput"), w]))
+                        j += 1
+                    groups.append(VStruct("()", [VLazy("sh%d" % h, "ScriptHash"), VSeq(inner, "map")]))
+                rw = E.mk_struct("InputsRequiredWitness", vkeys=KS.mk(m0), scripts=VSeq(groups, "map"))
+                return [R(E.mk_struct("TxInputsBuilder", required_witnesses=rw), "inputs")]
+            for o in E.explore("<protocol_types::ed25519_key_hashes::Ed25519KeyHashes as From<&tx_inputs_builder::TxInputsBuilder>>::from", mk):
+                if o.kind != "return":
+                    ob.vc("no panic (%s %s)" % (o.kind, o.msg), o.pc, z3.BoolVal(False)); continue
+                E.enter(o)
+                exp = z3.Or([m0] + [z3.And(has[j], mem[j]) for j in range(n) if pat[j] != "A"])
+                ob.vc("layout %s witnesses %s: an arbitrary key is required iff it is a payment key or a declared signer of ANY script witness" % (layout, "".join(pat)),
+                      o.pc, KS.member_of(E, o.value) == exp)
+            agg.stats["paths"] += E.stats["paths"]; agg.stats["feasibility_queries"] += E.stats["feasibility_queries"]; agg.stats["functions"] |= E.stats["functions"]
+    ob.finish(agg)
+
     # ------------------------------------------------------------------ certificate signer table
     from obl.c20 import shapes
     SH = shapes()
